@@ -27,9 +27,11 @@ EXPLANATION = (
     "leaves the loop without yielding the partial tuple; every sequence class the classifier knows has its own isinstance test and no "
     "duck-typing test is reached before all of them have failed; the sequence predicates is_fill_compute_seq / is_fill_request_seq ask of an "
     "element exactly what the element predicate asks (any(map(pred, seq)) or the equivalent generator, no extra conjunct or filter), "
-    "and the common-type methods _compute/_request/__call__ start a branch only when it is reached (no list of started branches); in lena.core a local that is None until an element is found is tested with `is None`, never by its truth value.  Does not decide the concrete output order/values nor "
+    "and the common-type methods _compute/_request/__call__ start a branch only when it is reached (no list of started branches); in lena.core a local that is None until an element is found is tested with `is None`, never by its truth value; the classifier hands its nullable bufsize to a constructor only on paths that excluded None.  Does not decide the concrete output order/values nor "
     "bufsize-independence of results.")
 RULES = {
+    "C03-h": "NONE IS A BUFSIZE: Split documents bufsize=None (the whole flow) and Zip calls the classifier without one; the classifier "
+             "hands its bufsize to a constructor that demands a natural number only where it is known not to be None",
     "C03-a": "AGREE: classifier kinds = kinds dispatched in the block loop = kinds of the final pass; common-type tables within the kinds",
     "C03-b": "AGREE: per kind only its protocol methods are called, the documented ones exactly as documented",
     "C03-c": "GUARD: fill is enclosed by except LenaStopFill; a stopped branch is finalised and dropped",
@@ -1160,7 +1162,51 @@ def check_zip(ctx):
         yields_all_results(ctx, "C03-g", loops[1].iter, "Zip.%s" % name, "_yield", "zip-yield-results:%s" % name)
 
 
+def check_none_bufsize(ctx):
+    """FillRequest.__init__ validates `bufsize != int(bufsize)`: None raises a bare TypeError.  _get_seq_with_type(seq, bufsize=None) is
+    called by Zip without a bufsize and by Split with its own, for which None is documented."""
+    res = ctx.res
+    fn = ctx.tree.func(SPLIT, "_get_seq_with_type")
+    dflt = A.param_defaults(fn)
+    nullable = {p for p, d in dflt.items() if isinstance(d, ast.Constant) and d.value is None}
+    n = 0
+    for p in P.paths_of(fn):
+        for i, c in p.calls():
+            tgt = res.call_canon(c) or ""
+            if not tgt.startswith("lena.core."):
+                continue
+            for k in c.keywords:
+                if k.arg is not None and isinstance(k.value, ast.Name) and k.value.id in nullable:
+                    n += 1
+                    lits = [(A.norm_src(t), pol) for t, pol in P.Path(p.ev[:i]).literals()]
+                    nm = k.value.id
+                    ok = ("%s is None" % nm, False) in lits or ("%s is not None" % nm, True) in lits
+                    ctx.check("C03-h", ok, c, "_get_seq_with_type passes `%s=%s` to %s on a path [%s] where %s may still be None (its "
+                              "default; what Zip always and Split(…, bufsize=None) pass): the constructor demands a natural number, so "
+                              "a tuple branch with a fill/request element makes Zip([...]) and Split([...], bufsize=None) raise "
+                              "TypeError at construction although the same element given bare is accepted" % (
+                                  k.arg, nm, tgt.rsplit(".", 1)[-1], P.Path(p.ev[:i]).describe(3), nm),
+                              detail="%s=%s passed only when not None" % (k.arg, nm), construct="none-passed:%s" % k.arg, path=p)
+    # the same through a keyword dictionary: kwargs["bufsize"] = bufsize ... Constructor(*seq, **kwargs)
+    starred = {A.src(k.value) for c in A.walk_local(fn) if isinstance(c, ast.Call) and (res.call_canon(c) or "").startswith("lena.core.")
+               for k in c.keywords if k.arg is None}
+    for p in P.paths_of(fn):
+        for i, e in enumerate(p.ev):
+            if e[0] == "stmt" and isinstance(e[1], ast.Assign) and len(e[1].targets) == 1 and isinstance(e[1].targets[0], ast.Subscript) \
+                    and A.src(e[1].targets[0].value) in starred and isinstance(e[1].value, ast.Name) and e[1].value.id in nullable:
+                n += 1
+                nm = e[1].value.id
+                lits = [(A.norm_src(t), pol) for t, pol in P.Path(p.ev[:i]).literals()]
+                ok = ("%s is None" % nm, False) in lits or ("%s is not None" % nm, True) in lits
+                ctx.check("C03-h", ok, e[1], "_get_seq_with_type stores `%s` into the keyword arguments of a constructor on a path [%s] where "
+                          "it may still be None: Zip([...]) and Split([...], bufsize=None) with a fill/request tuple branch raise TypeError "
+                          "at construction" % (nm, P.Path(p.ev[:i]).describe(3)), detail="%s stored for the constructor only when not None" % nm,
+                          construct="none-passed:%s" % nm, path=p)
+    ctx.instances_floor("C03-h", n, 1, "nullable parameters handed to a constructor by the classifier")
+
+
 def check(ctx):
+    check_none_bufsize(ctx)
     K.check_found_by_identity(ctx, "C03-a")
     ctx.instances_floor("C03-a/isinstance", K.check_isinstance_dispatch(ctx, "C03-a", ["lena.core.split", "lena.core.check_sequence_type", "lena.core.sequence", "lena.core.source", "lena.core.fill_compute_seq", "lena.core.fill_request_seq", "lena.core.fill_seq", "lena.core.adapters", "lena.core.meta", "lena.core.lena_sequence"], "a subclass of Source, Sequence, FillComputeSeq ..."), 10, "isinstance tests in lena.core")
     kinds = check_classifier(ctx)
@@ -1198,6 +1244,7 @@ VARIANTS = [
     M("compute-every-block", SP, "                    if stopped:\n                        for result in seq.compute():\n                            yield result\n",
       "                    for result in seq.compute():\n                        yield result\n                    if stopped:\n", ["C03-b"]),
     M("active-alias", SP, "        active_seqs = self._seqs[:]", "        active_seqs = self._seqs", ["C03-d"]),
+    M("revert-fix-classifier-none-bufsize", SP, "            if bufsize is not None:\n                # None (the whole flow for Split, or no bufsize\n                # from Zip) is not a size of a FillRequest.\n                kwargs[\"bufsize\"] = bufsize\n            seq = fill_request_seq.FillRequestSeq(*seq, **kwargs)", "            seq = fill_request_seq.FillRequestSeq(*seq, bufsize=bufsize, **kwargs)", ["C03-h"]),
     M("fc-element-found-by-truth", "lena/core/fill_compute_seq.py", "        if fc_el is None:", "        if not fc_el:", ["C03-a"]),
     M("seq-with-el-found-by-truth", "lena/core/fill_compute_seq.py", "    if el is None:", "    if not el:", ["C03-a"]),
     M("call-starts-all-branches-first", SP, "        for seq in self._seqs:\n            for result in seq():\n                yield result",
